@@ -24,7 +24,8 @@ def sh(cmd, **kw):
 def one(name, tier, extra_ids, procs):
     sd = ROOT / "seeded" / name
     meta = json.load(open(sd / "meta.json"))
-    ids = [meta["breaks_property"]] + [i for i in extra_ids if i != meta["breaks_property"]]
+    ids = [meta["breaks_property"]] + [i for i in list(meta.get("also_checks", [])) + list(extra_ids) if i != meta["breaks_property"]]
+    ids = list(dict.fromkeys(ids))
     base = SCRATCH / name
     if base.exists():
         shutil.rmtree(base, ignore_errors=True)
